@@ -70,7 +70,10 @@ def _member0(sym: str, i: int, rng: random.Random = None) -> Dict[str, Any]:
     spec = C.rand_doc_spec(r, f'scan{i}')
     d = r.choice(['', '', 'p/', 'p/q/', 'ü/'])
     if sym == 'good':
-        return {'what': 'good', 'name': f'{d}m{i}.xml', 'd': C.hexs(C.doc_xml(spec).encode('utf-8'))}
+        # "every well-formed PageXML member is still yielded": a member is PageXML by its content, whatever its name
+        # (upper-case .XML from DOS / Windows tools, .pagexml, a backup suffix, no extension at all)
+        ext = '.xml' if rng is None or r.random() >= 0.12 else r.choice(['.XML', '.pagexml', '.xml.orig', '', '.page'])
+        return {'what': 'good', 'name': f'{d}m{i}{ext}', 'd': C.hexs(C.doc_xml(spec).encode('utf-8'))}
     if sym in C.FAULT_KINDS:
         return {'what': sym, 'name': f'{d}m{i}.xml', 'd': C.hexs(C.faulty(sym, spec).encode('utf-8'))}
     if sym == 'nonxml':
